@@ -7,6 +7,10 @@
 //!   with_manifest_data_and_stream(_async), with_fragment(_async), sign_data_hashed_embeddable(_async),
 //!   add_ingredient_from_stream(_async) (incl. `application/c2pa` archives = add_ingredient_from_archive(_async)),
 //!   reading an asset with a remote manifest through mock resolvers (Context::with_resolver / with_resolver_async).
+//!   sign_box_hashed_embeddable(_async) (BoxHash from the repository fixtures, composed manifest spliced into boxhash.jpg).
+//! Every pair except with_fragment is also driven with generated "signable but invalid on validation" definitions
+//! (`inv_definition`, 10 kinds of action-rule violations) crossed with verify_after_sign on / off; reading and import
+//! pairs get inputs signed from such definitions (`inv_input`).
 //! Oracle: same error variant, or both Ok and equal normal forms (signing: read-back report under cross-run
 //! normalisation + verdict; reading: report of the same bytes + verdict; ingredient import: ingredient JSON with
 //! instance ids blanked). On a mismatch the sync form is run once more: if two sync runs disagree under the same
